@@ -581,6 +581,60 @@ def c03_activity_keeps_alive(params, tier):
     return [("c03_activity_keeps_alive:%s" % sorted(p.items()), b.h, U if p["usage"] else NU, {})]
 
 
+@family("C18", "C07")
+def c18_list_states(params, tier):
+    """`list` asked while nameplates are in every state of their life: one holder, two, a refused third (crowded),
+    released by one side, released by all, retired with its mailbox by close, expired; in two apps with the same
+    names; by a stranger and by a participant; listing allowed and disallowed."""
+    if params is None:
+        return [{"allow": a, "usage": u, "third": t} for a in (1, 0) for u in (0, 1) for t in ("claim", "open", "none")]
+    p = params
+    b = HB()
+    b.tag = "lst"
+
+    def ask():
+        for app in ("app", "app2"):
+            c = b.conn(app, "sL")
+            b.send(c, type="list")
+            b.drop(c)
+    holders = {}
+    for app in ("app", "app2"):
+        A = b.conn(app, "s1")
+        b.send(A, type="claim", nameplate="7")
+        holders[app] = [A]
+    ask()
+    B = b.conn("app", "s2")
+    b.send(B, type="claim", nameplate="7")
+    b.send(B, type="list")
+    ask()
+    if p["third"] != "none":
+        C = b.conn("app", "s3")
+        if p["third"] == "claim":
+            b.send(C, type="claim", nameplate="7")
+        else:
+            b.send(C, type="open", mailbox=claimed(B))
+        b.send(C, type="list")
+        ask()
+    X = b.conn("app", "s1")
+    b.send(X, type="allocate")
+    b.send(X, type="claim", nameplate=alloc(X))
+    Y = b.conn("app", "s2")
+    b.send(Y, type="claim", nameplate="x")
+    b.send(Y, type="open", mailbox=claimed(Y))
+    ask()
+    b.send(holders["app"][0], type="release")
+    ask()
+    b.send(B, type="release")
+    b.send(B, type="list")
+    ask()
+    b.send(Y, type="close", mood="happy")          # retires "x" together with its mailbox
+    ask()
+    b.drop(X)
+    b.adv(1300)                                     # everything not subscribed expires
+    ask()
+    return [("c18_list_states:%s" % sorted(p.items()), b.h, Config(usage=bool(p["usage"]), allow_list=bool(p["allow"])), {})]
+
+
 @family("C05", "C14")
 def c05_first_two_return(params, tier):
     """F7: after a third side was refused, a first-two side reconnects."""
